@@ -134,9 +134,36 @@ class P:
             unfolded = AGen(random.Random(s), False).seq(d) + "\n"
             cases.append("%s\t%s\t%s" % (hx(folded), al, hx(unfolded)))
 
+        # the word after a blank-terminated value is examined wherever that value ends: word lists of for, after ! and |, inside
+        # compound commands, chains of blank-terminated values
+        fixed = []
+        for table, pairs in (
+            ({"F": "for x in ", "A": "a b", "B": "b c", "AB": "a ", "F1": "for x in 1 "},
+             [("F A; do echo $x; done", "for x in a b; do echo $x; done"), ("F1 A; do :; done", "for x in 1 a b; do :; done"),
+              ("F AB B; do :; done", "for x in a b c; do :; done"), ("F A B; do :; done", "for x in a b B; do :; done"),
+              ("{ F A; do :; done; }", "{ for x in a b; do :; done; }"), ("F1 AB A; do F A; do :; done; done", "for x in 1 a a b; do for x in a b; do :; done; done")]),
+            ({"N": "nice ", "L": "ls -l", "NN": "N N "},
+             [("! N L", "! nice ls -l"), ("x | N L", "x | nice ls -l"), ("{ N L; }", "{ nice ls -l; }"), ("if N L; then N L; fi", "if nice ls -l; then nice ls -l; fi"),
+              ("( N L )", "( nice ls -l )"), ("N L && N L || N L", "nice ls -l && nice ls -l || nice ls -l"), ("while N L; do N L; done", "while nice ls -l; do nice ls -l; done"),
+              ("NN L", "nice nice ls -l"), ("N N L", "nice nice ls -l"), ("X=1 N L", "X=1 nice ls -l"), (">f N L", ">f nice ls -l"), ("N L L", "nice ls -l L"),
+              ("N 'L'", "nice 'L'"), ("N \\L", "nice \\L"), ("f() { N L; }", "f() { nice ls -l; }"), ("case x in x) N L ;; esac", "case x in x) nice ls -l ;; esac")]),
+            # a here-document inside an alias value, the alias word in any column (positions stand still inside alias text)
+            ({"H": "cat <<E\nbody\nE\n", "HT": "cat <<-E\n\tfoo\n\tE\n", "HX": "cat <<E\n$x `y`\nz\\\nE\nE\n", "H2": "cat <<A <<'B'\n1\nA\n$2\nB\n"},
+             [("H", "cat <<E\nbody\nE\n"), (" H", " cat <<E\nbody\nE\n"), ("x=1 H", "x=1 cat <<E\nbody\nE\n"), ("a | H", "a | cat <<E\nbody\nE\n"),
+              ("  HT", "  cat <<-E\n\tfoo\n\tE\n"), ("   HX", "   cat <<E\n$x `y`\nz\\\nE\nE\n"), ("{ H }", "{ cat <<E\nbody\nE\n }"), ("\tH2", "\tcat <<A <<'B'\n1\nA\n$2\nB\n"),
+              ("if H then :; fi", "if cat <<E\nbody\nE\nthen :; fi")]),
+            ({"W": "while ", "T": "true", "I": "if ", "TH": "then ", "E": "echo hi"},
+             [("W T; do T; done", "while true; do true; done"), ("I T; TH E; fi", "if true; then echo hi; fi"), ("I T; then E; fi", "if true; then echo hi; fi")]),
+        ):
+            alx = ",".join("%s=%s" % (hx(k), hx(v)) for k, v in table.items())
+            for f, u in pairs:
+                fixed.append("%s\t%s\t%s" % (hx(f + "\n"), alx, hx(u + "\n")))
+
         def ok(c, o):
             return o.startswith(("ok", "skip"))
-        return [{"name": "folded-vs-unfolded", "harness": "alias", "driver": None, "cases": cases, "impl_ok": ok,
+        return [{"name": "blank-terminated-values-in-every-position", "harness": "alias", "driver": None, "cases": fixed, "impl_ok": ok,
+                 "nontrivial": lambda c: True, "distribution": {"cases": len(fixed)}},
+                {"name": "folded-vs-unfolded", "harness": "alias", "driver": None, "cases": cases, "impl_ok": ok,
                  "nontrivial": lambda c: c.split("\t")[0] != c.split("\t")[2],
                  "distribution": {"cases": n}}]
 
